@@ -288,6 +288,10 @@ class TwoSiteTDVPEngine(TDVPEngine):
         self.psi.set_B(i0, B0, form='A')  # left-canonical
         self.psi.set_B(i0 + 1, B1, form='B')  # right-canonical
         self.psi.set_SR(i0, S)
+        if self.combine:
+            # the combined effective H expects the labels of a single site in `update_LP`/`update_RP`
+            U = U.replace_label('(vL.p0)', '(vL.p)')
+            VH = VH.replace_label('(p1.vR)', '(p.vR)')
         update_data = {'err': err, 'N': N, 'U': U, 'VH': VH}
         # earlier update of environments, since they are needed for the one_site_update()
         super().update_env(**update_data)  # new environments, e.g. LP[i0+1] on right move.
@@ -376,7 +380,7 @@ class SingleSiteTDVPEngine(TDVPEngine):
         self.psi.set_SR(i0, S)
 
         if True:  # note that i0 == L - 1 is left moving, so we always do a zero-site update
-            super().update_env(U=U)
+            super().update_env(U=U.replace_label('(vL.p0)', '(vL.p)') if self.combine else U)
             theta = VH.scale_axis(S, 'vL')
             theta, H0 = self.zero_site_update(i0 + 1, theta, 0.5j * self.dt)
             next_B = self.psi.get_B(i0 + 1, form='B')
@@ -401,7 +405,8 @@ class SingleSiteTDVPEngine(TDVPEngine):
         self.psi.set_SL(i0, S)
 
         if i0 != 0:  # left-moving, but not the last site of the update
-            super().update_env(VH=VH)  # note: no update needed if i0=0!
+            # note: no update needed if i0=0!
+            super().update_env(VH=VH.replace_label('(p0.vR)', '(p.vR)') if self.combine else VH)
             theta = U.iscale_axis(S, 'vR')
             theta, H0 = self.zero_site_update(i0, theta, 0.5j * self.dt)
             next_A = self.psi.get_B(i0 - 1, form='A')
